@@ -172,9 +172,14 @@ func c09Searches(tier string) []named {
 	// from a non-initial state: session 0 is the negotiated primary with an entry installed
 	init := []Letter{ls[0], {K: kParams, S: 0, P: pOK}, {K: kElect, S: 0, ID: ID{Lo: 1}}, {K: kOps, S: 0, Ops: []OpT{{entry("ADD nh1"), stOwn}}}}
 	o2 := &Options{Letters: ls, Sessions: n, Checks: Checks{Protocol: true}, Init: init}
+	// ... and with an operation of the primary held for an unresolved reference (another session's violation must
+	// not touch it)
+	init3 := []Letter{ls[0], {K: kParams, S: 0, P: pOK}, {K: kElect, S: 0, ID: ID{Lo: 2}}, {K: kOps, S: 0, Ops: []OpT{{entry("ADD v4->1"), stOwn}}}}
+	o3 := &Options{Letters: ls, Sessions: n, Checks: Checks{Protocol: true}, Init: init3}
 	return []named{
 		{fmt.Sprintf("modify-streams/%d-sessions", n), o, depth},
 		{fmt.Sprintf("modify-streams/%d-sessions/from-primary-established", n), o2, depth - 1},
+		{fmt.Sprintf("modify-streams/%d-sessions/from-primary-with-held-operation", n), o3, depth - 2},
 	}
 }
 
